@@ -108,13 +108,16 @@ pub fn shard_main(prop: &str, registry: &[Entry]) {
             let Some(exp) = expectation(case, inp) else { continue };
             // baseline: complete result of this input parsed alone on a fresh OS thread
             let (f, inp2) = (entry.run, inp.clone());
-            let base = std::thread::spawn(move || {
-                hrt::real::silence_panics();
-                let r = f(&inp2, Mode::Recorded);
-                (r, take_trace().len())
-            })
-            .join()
-            .unwrap();
+            let base = std::thread::Builder::new()
+                .stack_size(256 << 20)
+                .spawn(move || {
+                    hrt::real::silence_panics();
+                    let r = f(&inp2, Mode::Recorded);
+                    (r, take_trace().len())
+                })
+                .unwrap()
+                .join()
+                .unwrap();
             ev.push((inp.clone(), base.1, (exp.0, exp.1, base.0)));
         }
         // pairs chosen to collide: same first character (same rules at the same offsets), different continuation
